@@ -1694,6 +1694,12 @@ func ruleSyncSinks(c *Ctx) {
 	outF := p.FieldObj(modPath, "ClientConfig", "SyncStdout")
 	errF := p.FieldObj(modPath, "ClientConfig", "SyncStderr")
 	n := 0
+	type wiringSite struct {
+		f    *Func
+		call *ast.CallExpr
+	}
+	wired := map[string][]wiringSite{}
+	seenSite := map[*ast.CallExpr]bool{}
 	for _, f := range p.Funcs {
 		if strings.HasSuffix(p.Fset.Position(f.Body.Pos()).Filename, "testing.go") {
 			continue
@@ -1709,6 +1715,14 @@ func ruleSyncSinks(c *Ctx) {
 				return true
 			}
 			n++
+			if !seenSite[call] {
+				seenSite[call] = true
+				holder := p.EnclosingFunc(call)
+				if holder == nil {
+					holder = f
+				}
+				wired[nm] = append(wired[nm], wiringSite{holder, call})
+			}
 			resolve := func(e ast.Expr) *types.Var {
 				e = ast.Unparen(p.Deref(f, e))
 				return SelField(info, e)
@@ -1726,6 +1740,38 @@ func ruleSyncSinks(c *Ctx) {
 	}
 	if n < 2 {
 		c.R.Undecided("R-TABLE/stdio", "", "sinks", fmt.Sprintf("only %d calls that wire the sync writers found, 2 expected (net/rpc and gRPC)", n))
+	}
+	// the streams of one client are wired once: both wiring methods start
+	// copy goroutines that read the stream until it ends, and two of them on
+	// one stream take turns at its bytes. No run of a function executes two
+	// wiring calls: no two sites share a function, and no site's function
+	// reaches (by calls, not goroutines of other clients) the function of
+	// another site.
+	var names []string
+	for nm := range wired {
+		names = append(names, nm)
+	}
+	sort.Strings(names)
+	for _, nm := range names {
+		sites := wired[nm]
+		construct := "streams wired once: " + shortName(nm)
+		bad := false
+		for i, a := range sites {
+			reach := p.ReachableFuncs([]*Func{a.f}, true)
+			for j, b := range sites {
+				if i == j {
+					continue
+				}
+				if _, ok := reach[b.f]; ok && (a.f != b.f || i < j) {
+					bad = true
+					c.R.Violate("R-TABLE/stdio", p.Pos(a.call), a.f.Name, construct,
+						fmt.Sprintf("%s calls %s and also runs the call at %s (in %s): two copy goroutines read each stream and pieces of it reach the sync writer out of order", a.f.Name, shortName(nm), p.Pos(b.call), b.f.Name), nil)
+				}
+			}
+		}
+		if !bad && len(sites) > 0 {
+			c.R.Hold("R-TABLE/stdio", p.Pos(sites[0].call), sites[0].f.Name, construct, fmt.Sprintf("%d call site(s), no function runs two of them", len(sites)), true)
+		}
 	}
 }
 
@@ -2425,6 +2471,7 @@ func ruleCheckUsesHashGuarded(c *Ctx) {
 		return ok && at.Kind == "nil" && at.Op == token.NEQ && SelField(info, at.X) == hashF && hashF != nil
 	}
 	seen := g.Reach([]*Node{g.Entry}, nil, nonNil)
+	var feasible map[*Node]bool
 	n, bad := 0, false
 	for m := range seen {
 		if m.Ast == nil {
@@ -2442,6 +2489,14 @@ func ruleCheckUsesHashGuarded(c *Ctx) {
 			return true
 		})
 		if uses {
+			// the outcome of the test may have been recorded in an error
+			// variable that is tested afterwards (a validation helper)
+			if feasible == nil {
+				feasible = p.FeasibleReach(f, []*Node{g.Entry}, nil, nonNil)
+			}
+			if !feasible[m] {
+				continue
+			}
 			bad = true
 			c.R.Violate("R-NILGUARD", p.Pos(m.Ast), f.Name, "use of SecureConfig.Hash behind its nil test", "SecureConfig.Hash is used on a path on which it was not found non-nil: a configuration without a hash function panics the host instead of yielding ErrSecureConfigNoHash", nil)
 		}
